@@ -1023,6 +1023,8 @@ func c20Worker(arg json.RawMessage) (any, error) {
 			out = append(out, []c20ContRes{{Container: "anon-check", SchemaErr: c20UnionHistoryCheck()}})
 		case "strictrereg":
 			out = append(out, []c20ContRes{{Container: "anon-check", SchemaErr: c20StrictReRegistration()}})
+		case "codeccontract":
+			out = append(out, []c20ContRes{{Container: "anon-check", SchemaErr: c20CodecContract()}})
 		default:
 			return nil, fmt.Errorf("unknown step %q", st.Op)
 		}
@@ -1275,7 +1277,7 @@ func (p *c20Parent) scenario(label string, steps []c20Step, noOracle bool) {
 		}
 		conts := results[ri]
 		ri++
-		if st.Op == "anon" || st.Op == "relib" || st.Op == "enumreg" || st.Op == "unionhist" || st.Op == "strictrereg" {
+		if st.Op == "anon" || st.Op == "relib" || st.Op == "enumreg" || st.Op == "unionhist" || st.Op == "strictrereg" || st.Op == "codeccontract" {
 			r.Count("anon-registration")
 			if len(conts) == 1 && conts[0].SchemaErr != "" {
 				p.failOnce(-1, "registration-of-unnamed-type", conts[0].SchemaErr, map[string]any{"scenario": label})
@@ -1665,6 +1667,10 @@ func runC20(r *Run) {
 	p.scenario("registered-union-history", []c20Step{{Op: "unionhist"}}, true)
 	// the latest registration wins also when it REFUSES what the one it replaced accepted
 	p.scenario("stricter-re-registration", []c20Step{{Op: "strictrereg"}}, true)
+	// what a reasonable custom codec relies on: it may be a value of any Go type (a struct
+	// carrying a slice is not comparable), and Write is called once per encoded value, never for
+	// values the caller did not encode
+	p.scenario("codec-contract", []c20Step{{Op: "codeccontract"}}, true)
 	// registration only after a first codec was built without any
 	p.scenario("first-after-build", []c20Step{
 		{Op: "run", Containers: late, Seed: seed, N: nv, Hold: true},
@@ -2153,6 +2159,109 @@ func c20StrictReRegistration() string {
 	avro.Register(reflect.TypeOf(c20Strict2(0)), builderA)
 	if _, err := build(long1, h2{}); err != nil {
 		return "builder A registered last: a long schema is refused: " + err.Error()
+	}
+	return ""
+}
+
+// c20CodecContract (child): a registered codec that is a struct value carrying a slice (not a
+// comparable Go value), used as a field, behind a pointer, as a slice element and as a map value;
+// and a codec that counts its calls: NewEncoderFor plus n Encode calls make exactly one Write per
+// occurrence per encoded value, and reading the file back makes as many Reads.
+type c20Level string
+
+type c20LevelCodec struct {
+	symbols []string // makes the codec value uncomparable
+	writes  *int
+	reads   *int
+}
+
+func (c c20LevelCodec) Read(r *avro.ReadBuf, p unsafe.Pointer) error {
+	*c.reads++
+	i, err := r.Varint()
+	if err != nil {
+		return err
+	}
+	if i < 0 || int(i) >= len(c.symbols) {
+		return fmt.Errorf("level %d out of range", i)
+	}
+	*(*string)(p) = c.symbols[i]
+	return nil
+}
+func (c c20LevelCodec) Skip(r *avro.ReadBuf) error { _, err := r.Varint(); return err }
+func (c c20LevelCodec) New(r *avro.ReadBuf) unsafe.Pointer {
+	return r.Alloc(reflect.TypeOf(c20Level("")))
+}
+func (c c20LevelCodec) Omit(p unsafe.Pointer) bool { return false }
+func (c c20LevelCodec) Write(w *avro.WriteBuf, p unsafe.Pointer) {
+	*c.writes++
+	for i, s := range c.symbols {
+		if s == *(*string)(p) {
+			w.Varint(int64(i))
+			return
+		}
+	}
+	w.Varint(0)
+}
+
+type c20LevelRow struct {
+	L  c20Level            `json:"l"`
+	P  *c20Level           `json:"p"`
+	S  []c20Level          `json:"s"`
+	M  map[string]c20Level `json:"m"`
+	ID int64               `json:"id"`
+}
+
+func c20CodecContract() (bad string) {
+	defer func() {
+		if p := recover(); p != nil {
+			bad = fmt.Sprintf("panic: %v", p)
+		}
+	}()
+	var writes, reads int
+	syms := []string{"low", "mid", "high"}
+	avro.Register(reflect.TypeOf(c20Level("")), func(s avro.Schema, t reflect.Type, omit bool) (avro.Codec, error) {
+		return c20LevelCodec{symbols: syms, writes: &writes, reads: &reads}, nil
+	})
+	avro.RegisterSchema(reflect.TypeOf(c20Level("")), avro.Schema{Type: "long"})
+	var buf bytes.Buffer
+	enc, err := avro.NewEncoderFor[c20LevelRow](&buf, avro.CompressionNull, 64)
+	if err != nil {
+		return "a registered codec that is a struct value carrying a slice, used as field / pointer / element / map value: NewEncoderFor fails: " + err.Error()
+	}
+	if writes != 0 {
+		return fmt.Sprintf("NewEncoderFor called Write of the registered codec %d times before any value was encoded", writes)
+	}
+	hi := c20Level("high")
+	rows := []c20LevelRow{{L: "mid", P: &hi, S: []c20Level{"low", "high"}, M: map[string]c20Level{"k": "mid"}, ID: 1}, {L: "low", ID: 2}, {L: "high", P: &hi, S: []c20Level{"mid"}, ID: 3}}
+	wantCalls := 0
+	for i := range rows {
+		if err := enc.Encode(&rows[i]); err != nil {
+			return "Encode: " + err.Error()
+		}
+		wantCalls += 1 + len(rows[i].S) + len(rows[i].M)
+		if rows[i].P != nil {
+			wantCalls++
+		}
+	}
+	enc.Flush()
+	if writes != wantCalls {
+		return fmt.Sprintf("three records holding %d values of the registered type were encoded; the registered codec's Write ran %d times", wantCalls, writes)
+	}
+	n := 0
+	err = avro.ReadFile(bytes.NewReader(buf.Bytes()), c20LevelRow{}, func(val unsafe.Pointer, rb *avro.ResourceBank) error {
+		v := (*c20LevelRow)(val)
+		w := rows[n]
+		if v.L != w.L || (v.P == nil) != (w.P == nil) || (v.P != nil && *v.P != *w.P) || len(v.S) != len(w.S) || len(v.M) != len(w.M) || v.ID != w.ID {
+			return fmt.Errorf("record %d reads %+v, written %+v", n, *v, w)
+		}
+		n++
+		return nil
+	})
+	if err != nil || n != len(rows) {
+		return fmt.Sprintf("reading the file back: %d of %d records, %v", n, len(rows), err)
+	}
+	if reads != wantCalls {
+		return fmt.Sprintf("the file holds %d values of the registered type; the registered codec's Read ran %d times", wantCalls, reads)
 	}
 	return ""
 }
